@@ -400,7 +400,31 @@ func init() {
 				cmds = append(cmds, genCommand(r))
 			}
 		}
+		ubiq := ""
+		if r.Chance(1, 4) {
+			// a word that (nearly) every command contains, in a database of 10+ entries: its idf is tiny but
+			// positive, so it must still select candidates and contribute to scores
+			ubiq = Pick(r, []string{"docker", "git", "list", "run", "zz9"})
+			for len(cmds) < r.Range(10, maxN+10) {
+				cmds = append(cmds, genCommand(r))
+			}
+			skip := -1
+			if r.Bool() {
+				skip = r.Intn(len(cmds))
+			}
+			for i := range cmds {
+				if i != skip {
+					cmds[i].Command = ubiq + " " + cmds[i].Command
+				}
+			}
+			n = len(cmds)
+		}
 		var words []string
+		if ubiq != "" {
+			for k := 0; k < 8; k++ {
+				words = append(words, ubiq)
+			}
+		}
 		for i := range cmds {
 			for _, t := range [][]string{{cmds[i].Command, cmds[i].Description}, cmds[i].Keywords, cmds[i].Tags} {
 				for _, s := range t {
